@@ -229,6 +229,7 @@ type zzOdd struct {
 	If   interface{}
 	SU   []uint
 	SP   []*int
+	Last int64 // a supported field declared after all the unsupported ones
 }
 
 // a map whose values are not interfaces makes the reflection walk itself
@@ -239,7 +240,7 @@ type zzOddMap struct {
 	MS   map[string]int
 }
 
-var zzOddNames = []string{"Good", "U", "U8", "I32", "I8", "P", "N", "C", "Fn", "A", "Cx", "If", "SU", "SP", "MI", "MS"}
+var zzOddNames = []string{"Last", "Good", "U", "U8", "I32", "I8", "P", "N", "C", "Fn", "A", "Cx", "If", "SU", "SP", "MI", "MS"}
 
 // ZZ_C04_Unsupported: a field of a kind the engine cannot represent yields
 // null or an error - never a nil object, never a crash of Run - and the
@@ -247,7 +248,7 @@ var zzOddNames = []string{"Good", "U", "U8", "I32", "I8", "P", "N", "C", "Fn", "
 func ZZ_C04_Unsupported(sv *zzsv.T) {
 	x := 5
 	o := zzOdd{Good: sv.Int64("Good"), U: uint(sv.Uint64("U")), U8: sv.Byte("U8"), I32: sv.Int32("I32"), P: &x,
-		N: zzInner{X: 1}, A: [2]int{1, 2}, Cx: complex(1, 2), If: sv.Int64("If"), SU: []uint{1}, SP: []*int{&x}}
+		N: zzInner{X: 1}, A: [2]int{1, 2}, Cx: complex(1, 2), If: sv.Int64("If"), SU: []uint{1}, SP: []*int{&x}, Last: sv.Int64("Last")}
 	if sv.Choice("nilptr", 2) == 1 {
 		o.P = nil
 		o.If = nil
@@ -294,6 +295,10 @@ func ZZ_C04_Unsupported(sv *zzsv.T) {
 		// next to an unconvertible field the good field is delivered
 		// faithfully, or the run fails - never a wrong value
 		sv.Assert("C04.odd.good", err != nil || zzSame(sv, out, zInt(o.Good)))
+		return
+	}
+	if name == "Last" {
+		sv.Assert("C04.odd.field_after_unsupported", err != nil || zzSame(sv, out, zInt(o.Last)))
 		return
 	}
 	sv.Assert("C04.odd.null_or_error", err != nil || out != nil)
